@@ -1,5 +1,141 @@
-import ChumskyModel.Model.Spec
+/-
+  C02 — repetition and separators honour bounds, greediness and leading/trailing rules.
+
+  Two layers: (1) the machine's loops (`Repeated::next`, `SeparatedBy::next`, `Collect::go`, folds …) refine the
+  stateless iterator protocol of the reading (master refinement); (2) the protocol is characterised by chain
+  predicates: greedy, possessive, bounded, separators only where allowed (Proofs/Lemmas/RepSpec.lean).
+-/
+import ChumskyModel.Proofs.Lemmas.Top
+import ChumskyModel.Proofs.Lemmas.RepSpec
+set_option linter.unusedSimpArgs false
 namespace Chumsky
-theorem placeholder_C02 : True := trivial
-#print axioms placeholder_C02
+
+/-- **C02 (machine).** Every consumer over every iterable parser refines the reading: same acceptance, same items /
+    counts / folded values, same end position, for every grammar, input, state and fuel. -/
+theorem c02_machine_refines (n : Nat) (env : Env) (m : Mode) (st : St) (hm : env.memoOn = false) (it : It)
+    (k : CollKind) (cnt : Nat) (f : FoldFn) (a b : G) :
+    Refines m st.errs st.ctx (run n env m (.collect k it) st) (peg n env (.collect k it) st.ss st.ctx) ∧
+    Refines m st.errs st.ctx (run n env m (.collectExactly cnt it) st) (peg n env (.collectExactly cnt it) st.ss st.ctx) ∧
+    Refines m st.errs st.ctx (run n env m (.foldl f a it) st) (peg n env (.foldl f a it) st.ss st.ctx) ∧
+    Refines m st.errs st.ctx (run n env m (.foldr f it b) st) (peg n env (.foldr f it b) st.ss st.ctx) ∧
+    Refines m st.errs st.ctx (run n env m (.iterP it) st) (peg n env (.iterP it) st.ss st.ctx) :=
+  ⟨run_refines n env m _ st hm, run_refines n env m _ st hm, run_refines n env m _ st hm,
+   run_refines n env m _ st hm, run_refines n env m _ st hm⟩
+
+/-- **repeated, collected.** `a.repeated().at_least(lo).at_most(hi).collect::<Vec<_>>()` succeeding means: the
+    items are a chain of consecutive matches of `a` from the start position, in input order; their number is within
+    `[lo, hi]`; it stopped only because the cap was reached or because `a` fails right after the last item (greedy
+    and possessive: never earlier); the end position is just after the last item.
+    (`hwf`: well-formed bounds `at_least ≤ at_most`; see the finding recorded below for ill-formed bounds.) -/
+theorem c02_repeated_collect {env : Env} {ctx : Val} {n a lo hi s v s' em} (hwf : ∀ h, hi = some h → lo ≤ h)
+    (h : peg (n + 2) env (.collect .vec (.repeated a lo hi)) s ctx = .ok v s' em) :
+    ∃ vs, Chain (peg n) env ctx a s vs s' em ∧ v = Val.ofList vs ∧ lo ≤ vs.length ∧
+      (∀ h, hi = some h → vs.length ≤ h) ∧ (hi = some vs.length ∨ peg n env a s' ctx = .fail) :=
+  peg_collect_vec_repeated hwf h
+
+/-- `count()` sees the same item sequence -/
+theorem c02_repeated_count {env : Env} {ctx : Val} {n a lo hi s v s' em} (hwf : ∀ h, hi = some h → lo ≤ h)
+    (h : peg (n + 2) env (.collect .count (.repeated a lo hi)) s ctx = .ok v s' em) :
+    ∃ vs, Chain (peg n) env ctx a s vs s' em ∧ v = .nat vs.length ∧ lo ≤ vs.length ∧
+      (∀ h, hi = some h → vs.length ≤ h) ∧ (hi = some vs.length ∨ peg n env a s' ctx = .fail) :=
+  peg_collect_count_repeated hwf h
+
+/-- `foldl` folds exactly that sequence from the left -/
+theorem c02_repeated_foldl {env : Env} {ctx : Val} {n f a0 a lo hi s v s' em}
+    (h : peg (n + 2) env (.foldl f a0 (.repeated a lo hi)) s ctx = .ok v s' em) :
+    ∃ v0 s0 e0 vs e, peg (n + 1) env a0 s ctx = .ok v0 s0 e0 ∧
+      RepRun (peg n) env ctx a lo hi s0 vs s' e ∧ v = vs.foldl f.evalL v0 ∧ em = e0 ++ e :=
+  peg_foldl_repeated h
+
+/-- `foldr` folds exactly that sequence from the right -/
+theorem c02_repeated_foldr {env : Env} {ctx : Val} {n f a lo hi b s v s' em}
+    (h : peg (n + 2) env (.foldr f (.repeated a lo hi) b) s ctx = .ok v s' em) :
+    ∃ vs s2 e2 vb e3, RepRun (peg n) env ctx a lo hi s vs s2 e2 ∧
+      peg (n + 1) env b s2 ctx = .ok vb s' e3 ∧ v = List.foldr f.evalR vb vs ∧ em = e2 ++ e3 :=
+  peg_foldr_repeated h
+
+/-- `enumerate` pairs the same sequence with 0, 1, 2, … -/
+theorem c02_repeated_enumerate {env : Env} {ctx : Val} {n k a lo hi s v s' em}
+    (h : peg (n + 3) env (.collect k (.enumerate (.repeated a lo hi))) s ctx = .ok v s' em) :
+    ∃ vs, RepRun (peg n) env ctx a lo hi s vs s' em ∧ v = sCollectOut k (enumVals 0 vs) :=
+  peg_collect_enumerate_repeated h
+
+/-- `collect_exactly::<[_; m]>()` succeeds iff a chain of exactly `m` items exists (and `m ≤ at_most`); it takes
+    those `m` items and looks no further -/
+theorem c02_repeated_collect_exactly {env : Env} {ctx : Val} {n m a lo hi s v s' em} :
+    peg (n + 2) env (.collectExactly m (.repeated a lo hi)) s ctx = .ok v s' em ↔
+    ∃ vs, Chain (peg n) env ctx a s vs s' em ∧ vs.length = m ∧ v = Val.ofList vs ∧
+      (∀ h, hi = some h → m ≤ h) :=
+  peg_collectExactly_repeated
+
+/-- used as a plain parser (`repeated()` without `collect`): the same run, output `()` -/
+theorem c02_repeated_plain {env : Env} {ctx : Val} {n a lo hi s v s' em} (hb : lo ≠ 0 ∨ hi ≠ none)
+    (h : peg (n + 2) env (.iterP (.repeated a lo hi)) s ctx = .ok v s' em) :
+    ∃ vs, RepRun (peg n) env ctx a lo hi s vs s' em ∧ v = .unit :=
+  peg_iterP_repeated_slow hb h
+
+/-- **separated_by, collected**: the run is `[leading separator, only with allow_leading] item (separator item)*
+    [trailing separator, only with allow_trailing]` (`SepRun`, `SepStop`, `SepTail`): it stops only at the cap
+    (then without looking for a trailing separator), because the separator fails, or because the item after a
+    separator fails (the separator is then given back unless `allow_trailing`). -/
+theorem c02_separated_collect {env : Env} {ctx : Val} {n k a sep lo hi lead trail s v s' em}
+    (h : peg (n + 2) env (.collect k (.separatedBy a sep lo hi lead trail)) s ctx = .ok v s' em) :
+    ∃ vs, SepRun (peg n) env ctx a sep lo hi lead trail s vs s' em ∧ v = sCollectOut k vs :=
+  peg_collect_separatedBy h
+
+theorem c02_separated_bounds {P : SRunner} {env : Env} {ctx : Val} {a sep lo hi lead trail s vs s' e}
+    (h : SepRun P env ctx a sep lo hi lead trail s vs s' e) (hwf : ∀ m, hi = some m → lo ≤ m) :
+    lo ≤ vs.length ∧ ∀ m, hi = some m → vs.length ≤ m :=
+  ⟨h.lo_le hwf, h.le_hi⟩
+
+/-- without `allow_leading`/`allow_trailing` exactly `item (separator item)*` is consumed: a separator only
+    between two accepted items, end position just after the last accepted item -/
+theorem c02_separated_strict {P : SRunner} {env : Env} {ctx : Val} {a sep lo hi s vs s' e}
+    (h : SepRun P env ctx a sep lo hi false false s vs s' e) :
+    (vs = [] ∧ s' = s ∧ e = []) ∨
+    (∃ v vs' s1 e1 em, vs = v :: vs' ∧ P env a s ctx = .ok v s1 e1 ∧
+      SepTail P env ctx a sep s1 vs' s' em ∧ e = e1 ++ em) :=
+  h.strict
+
+/-- with no items nothing is consumed — except a lone separator when both `allow_leading` and `allow_trailing` hold -/
+theorem c02_separated_empty {P : SRunner} {env : Env} {ctx : Val} {a sep lo hi lead trail s s' e}
+    (h : SepRun P env ctx a sep lo hi lead trail s [] s' e) :
+    (s' = s ∧ e = []) ∨
+    (lead = true ∧ trail = true ∧ ∃ w, P env sep s ctx = .ok w s' e ∧ P env a s' ctx = .fail) :=
+  h.nil_pos
+
+/-- the same bounds apply when the count comes from `configure()`: see `c15_configure_rep_next`. -/
+theorem c02_configure_bounds (n : Nat) : cfgBounds .exactlyFromCtx (.nat n) = (some n, some n) := rfl
+
+/-- **finding (recorded in known_findings.json, D14).** With ill-formed bounds `at_least > at_most` the count can
+    never be "within [at_least, at_most]", yet the cap is tested before `at_least`: the repetition succeeds with
+    `at_most` items. Negation witness for the unrestricted statement (machine and reading agree, and so does the
+    real crate): `just('a').repeated().at_least(2).at_most(1).collect()` accepts "a". -/
+theorem c02_ill_formed_bounds_witness :
+    (match parseTop 10 { toks := [97], memoOn := false } .emit (.collect .vec (.repeated (.just [97]) 2 (some 1))) with
+      | .result r _ => (r.output, r.errs.length)
+      | _ => (none, 99)) = (some (.cons (.toks [97]) .nil), 0) := by
+  decide +kernel
+
+/-- non-vacuity: trailing separator allowed, leading not -/
+example :
+    (match parseTop 12 { toks := [97, 44, 97, 44], memoOn := false } .emit
+        (.collect .vec (.separatedBy (.just [97]) (.just [44]) 1 none false true)) with
+      | .result r f => (r.output, f.pos)
+      | _ => (none, 0)) = (some (.cons (.toks [97]) (.cons (.toks [97]) .nil)), 4) := by
+  decide +kernel
+
+#print axioms c02_machine_refines
+#print axioms c02_repeated_collect
+#print axioms c02_repeated_count
+#print axioms c02_repeated_foldl
+#print axioms c02_repeated_foldr
+#print axioms c02_repeated_enumerate
+#print axioms c02_repeated_collect_exactly
+#print axioms c02_repeated_plain
+#print axioms c02_separated_collect
+#print axioms c02_separated_bounds
+#print axioms c02_separated_strict
+#print axioms c02_separated_empty
+#print axioms c02_ill_formed_bounds_witness
 end Chumsky
